@@ -63,7 +63,12 @@ func (c *Controller) scaleUpCloudProviderNodeGroup(opts scaleOpts) (int, error) 
 	}
 
 	nodegroupName := opts.nodeGroup.Opts.Name
-	nodesToAdd := c.calculateNodesToAdd(int64(opts.nodesDelta), cloudProviderNodeGroup.TargetSize(), cloudProviderNodeGroup.MaxSize())
+	// never go beyond the configured max_nodes, nor beyond the cloud provider node group's own maximum
+	maxSize := cloudProviderNodeGroup.MaxSize()
+	if int64(opts.nodeGroup.Opts.MaxNodes) < maxSize {
+		maxSize = int64(opts.nodeGroup.Opts.MaxNodes)
+	}
+	nodesToAdd := c.calculateNodesToAdd(int64(opts.nodesDelta), cloudProviderNodeGroup.TargetSize(), maxSize)
 	if nodesToAdd <= 0 {
 		err := fmt.Errorf(
 			"refusing to scaleup up beyond the maximum size of the autoscaling group (TargetSize: %v; MaxNodes: %v). Taking no action",
